@@ -1710,6 +1710,11 @@ func (c *crCase) oracles(r *crRun, rels []crSigRel, twin *crFacts, inherited str
 		mode = "flush-every-block"
 	}
 	cause := c.cause(r)
+	switch cause {
+	case "genesis-fallback", "head-rewound", "genesis-commit-not-atomic":
+		// the recovering life ran into one of these windows itself: its own root cause
+		inherited = ""
+	}
 	if inherited != "" {
 		cause = inherited
 	}
@@ -1849,6 +1854,11 @@ func (c *crCase) step(in string, img *crImg, withRel bool, inherited string) (*c
 		if !r.walCheck {
 			c.o.Fail(c.opNo, "replay-class-vs-wal", fmt.Sprintf("cause=harness reported=%s window=%s tail=%s", r.replay, img.window, img.tail))
 		}
+	}
+	if r.end == "wall" {
+		// the wall-clock bound is a harness limit (machine load): once more with a generous bound
+		c.o.Count("harness:wall-bound-repeated")
+		r = crRestart(c.env, img, 20*time.Second)
 	}
 	all := crRelate(img.pub, r.life.sigs)
 	c.oracles(r, all, c.facts0, inherited)
